@@ -78,10 +78,12 @@ varintWidth varintPFORComputeThreshold(const uint64_t *values, uint32_t count,
     /* Calculate exception marker */
     uint64_t marker = varintPFORCalculateMarker(width);
 
-    /* Count exceptions - values above threshold percentile */
+    /* Count exceptions - values above threshold percentile, plus in-range
+     * values whose offset collides with the exception marker (they must be
+     * patched too, otherwise the decoder takes them for exceptions) */
     uint32_t exceptionCount = 0;
     for (uint32_t i = 0; i < count; i++) {
-        if (values[i] > thresholdValue) {
+        if (values[i] > thresholdValue || values[i] - min == marker) {
             /* Value above threshold is an exception */
             exceptionCount++;
         }
@@ -159,7 +161,9 @@ size_t varintPFOREncode(uint8_t *dst, const uint64_t *values, uint32_t count,
     for (uint32_t i = 0; i < count; i++) {
         uint64_t value = values[i];
 
-        if (value > meta->thresholdValue && exceptions) {
+        if ((value > meta->thresholdValue ||
+             value - meta->min == meta->exceptionMarker) &&
+            exceptions) {
             /* Above threshold: store exception marker */
             varintExternalPutFixedWidth(dst, meta->exceptionMarker,
                                         meta->width);
